@@ -109,6 +109,15 @@ def run(rep, idx, tier):
     decode_address(rep, idx)
     window_size(rep, idx)
     authority(rep, idx)
+    # the queries refuse nothing: "every other address decodes to nothing", an object never added is a KeyError and nothing else
+    from .common import closed_refusals, check_refusal
+    rep.require("C03.7", 2)
+    for spec, what in (("MemoryMap.decode_address", "decode_address() refuses no address (an address outside every range decodes to None)"),
+                       ("MemoryMap.all_resources", "all_resources() refuses nothing")):
+        try:
+            closed_refusals(rep, "C03.7", get_fn(idx, spec), what)
+        except Exception as e:
+            rep.unk("C03.7", "-", what, f"cannot decide: {e}")
 
 
 def typed(rep, rule, site, what, expr, want_expr, want_unit, leaves, depends=()):
